@@ -349,12 +349,9 @@ class IrToPythonCompiler:
         for ins in block:
             self.generate_instruction(ins, block)
 
-        if not self._shape_style:
-            self.fill_phis(block)
-
-    def fill_phis(self, block):
-        # Generate eventual phi fill code:
-        phis = [p for s in block.successors for p in s.phis]
+    def fill_phis(self, block, target):
+        # Generate eventual phi fill code for the edge block -> target:
+        phis = target.phis
         if phis:
             phi_names = ", ".join(p.name for p in phis)
             value_names = ", ".join(p.inputs[block].name for p in phis)
@@ -364,9 +361,10 @@ class IrToPythonCompiler:
         self.emit(f"rt.free({self.stack_size})")
         self.stack_size = 0
 
-    def emit_jump(self, target: ir.Block):
+    def emit_jump(self, block: ir.Block, target: ir.Block):
         """Perform a jump in block mode."""
         assert isinstance(target, ir.Block)
+        self.fill_phis(block, target)
         self.emit("_irpy_prev_block = _irpy_current_block")
         self.emit(f'_irpy_current_block = "{target.name}"')
 
@@ -437,10 +435,10 @@ class IrToPythonCompiler:
         else:
             self.emit(f"if {a} {ins.cond} {b}:")
             with self.indented():
-                self.emit_jump(ins.lab_yes)
+                self.emit_jump(ins.block, ins.lab_yes)
             self.emit("else:")
             with self.indented():
-                self.emit_jump(ins.lab_no)
+                self.emit_jump(ins.block, ins.lab_no)
 
     def gen_jump(self, ins):
         if self._shape_style:
@@ -448,7 +446,7 @@ class IrToPythonCompiler:
             # self.fill_phis(block)
             self.emit("pass")
         else:
-            self.emit_jump(ins.target)
+            self.emit_jump(ins.block, ins.target)
 
     def gen_cast(self, ins):
         if ins.ty.is_integer:
